@@ -254,6 +254,160 @@ def confirm(args):
         return {"machinery": "%s: %s" % (type(e).__name__, str(e)[:100])}, 0
 
 
+# ---- user types with structure: the emitted per-type storage routines (specs/TypeRoutines.tla) ------------------
+
+def type_catalogue():
+    import dagrt.codegen.fortran as f
+    R = f.BuiltinType("real*8")
+    PA = lambda n: f.PointerType(f.ArrayType((n,), R))          # noqa: E731
+    return {
+        "array": dict(pre="", ut=f.ArrayType((2,), R, index_vars="iy"), rhs="\n${result} = -2*${y}\n", tname=None,
+                      init="y0 = 1\n", fini="", decl="real*8, dimension(2) :: y0"),
+        "struct(real, ptr array)": dict(
+            pre="\ntype ytype\n real*8 n\n real*8, pointer :: v(:)\nend type\n",
+            ut=f.StructureType("ytype", (("n", R), ("v", PA(4)))),
+            rhs="\n${result}%n = -2*${y}%n\n${result}%v = -2*${y}%v\n", tname="ytype",
+            init="allocate(y0%v(4))\ny0%v = 1\ny0%n = 3\n", fini="deallocate(y0%v)\n"),
+        "struct(ptr array, ptr array)": dict(
+            pre="\ntype ytype\n real*8, pointer :: v(:)\n real*8, pointer :: w(:)\nend type\n",
+            ut=f.StructureType("ytype", (("v", PA(4)), ("w", PA(3)))),
+            rhs="\n${result}%v = -2*${y}%v\n${result}%w = 3*${y}%w\n", tname="ytype",
+            init="allocate(y0%v(4))\nallocate(y0%w(3))\ny0%v = 1\ny0%w = 2\n", fini="deallocate(y0%v)\ndeallocate(y0%w)\n"),
+        "struct(real, ptr struct(ptr array))": dict(
+            pre="\ntype itype\n real*8, pointer :: v(:)\nend type\ntype ytype\n real*8 n\n type(itype), pointer :: inner\nend type\n",
+            ut=f.StructureType("ytype", (("n", R), ("inner", f.PointerType(f.StructureType("itype", (("v", PA(3)),)))))),
+            rhs="\n${result}%n = -2*${y}%n\n${result}%inner%v = -2*${y}%inner%v\n", tname="ytype",
+            init="allocate(y0%inner)\nallocate(y0%inner%v(3))\ny0%inner%v = 1\ny0%n = 3\n",
+            fini="deallocate(y0%inner%v)\ndeallocate(y0%inner)\n"),
+    }
+
+
+TYPE_DRIVER = """
+program driver
+  use dagrtmod, only: dagrt_state_type, %(use)stimestep_initialize => initialize, timestep_run => run, timestep_shutdown => shutdown
+  implicit none
+  type(dagrt_state_type), target :: dagrt_state
+  type(dagrt_state_type), pointer :: dagrt_state_ptr
+  %(decl)s
+  integer istep
+  dagrt_state_ptr => dagrt_state
+%(init)s
+  call timestep_initialize(dagrt_state=dagrt_state_ptr, state_y=y0, dagrt_t=0d0, dagrt_dt=1d-1, p_count=0d0)
+  do istep = 1, 5
+    call timestep_run(dagrt_state=dagrt_state_ptr)
+  end do
+  call timestep_shutdown(dagrt_state=dagrt_state_ptr)
+%(fini)s
+  write(*,*) 'SHUTDOWN-DONE'
+end program
+"""
+
+
+def type_module(T):
+    """A two-stage method with a rejected step and a move into the state, generated by the real generator for the type."""
+    import dagrt.codegen.fortran as f
+    from dagrt.function_registry import base_function_registry, register_ode_rhs
+    from dagrt.language import CodeBuilder, DAGCode
+    from pymbolic import var
+    with CodeBuilder("primary") as cb:
+        cb("k", "<func>f(<t>, <state>y)")
+        cb("w", "<state>y + <dt>*k")
+        cb("k", "<func>f(<t> + <dt>, w)")
+        cb("w2", "<state>y + <dt>/2*k")
+        cb("<p>count", "<p>count + 1")
+        with cb.if_("(<p>count - 2)**2 < 0.25"):
+            cb.fail_step()
+        cb("<state>y", "w2")
+        cb("<t>", "<t> + <dt>")
+        cb.yield_state(var("<state>y"), "y", var("<t>"), "final")
+    code = DAGCode.from_phases_list([cb.as_execution_phase("primary")], "primary")
+    freg = register_ode_rhs(base_function_registry, "y", identifier="<func>f", input_names=("y",))
+    freg = freg.register_codegen("<func>f", "fortran", f.CallCode(T["rhs"]))
+    kw = {"module_preamble": T["pre"]} if T["pre"] else {}
+    return f.CodeGenerator("dagrtmod", function_registry=freg, user_type_map={"y": T["ut"]}, **kw)(code)
+
+
+def type_job(name):
+    """(name, TLC case of the two storage routines, sanitizer classes of one real run, warnings)."""
+    import shutil
+    import subprocess
+    import tempfile
+    from .common import use_repo
+    use_repo()
+    T = type_catalogue()[name]
+    text = type_module(T)
+    alloc, w1 = fextract.type_routine(text, "dagrt_alloc_check_y")
+    deinit, w2 = fextract.type_routine(text, "dagrt_deinit_y")
+    paths = []
+    for i in alloc + deinit:
+        if i[0] in ("allocate", "deallocate", "nullify") and i[1] not in paths:
+            paths.append(i[1])
+    paths.sort(key=lambda q: (len(q), q))
+    case = {"paths": paths, "alloc": alloc, "deinit": deinit}
+    drv = TYPE_DRIVER % {"use": (T["tname"] + ", ") if T["tname"] else "", "decl": T.get("decl") or "type(%s) :: y0" % T["tname"],
+                         "init": T["init"], "fini": T["fini"]}
+    d = tempfile.mkdtemp(prefix="verif_type_")
+    try:
+        for n, t in (("dagrtmod.f90", text), ("driver.f90", drv)):
+            with open(os.path.join(d, n), "w") as f_:
+                f_.write(t)
+        p = subprocess.run([fortran.FC, "-g", "-O0", "-ffree-line-length-none"] + ASAN + ["-o", "prog", "dagrtmod.f90", "driver.f90"],
+                           cwd=d, stdout=subprocess.PIPE, stderr=subprocess.STDOUT, text=True, timeout=180)
+        if p.returncode != 0:
+            return name, case, {"compile-fail": p.stdout[-300:]}, w1 + w2
+        r = subprocess.run([os.path.join(d, "prog")], cwd=d, stdout=subprocess.PIPE, stderr=subprocess.PIPE, text=True, timeout=60,
+                           env=dict(os.environ, ASAN_OPTIONS="detect_leaks=1:exitcode=23"))
+        seen = {c: (r.stderr.strip().split("\n") or [""])[0][:160] for c in classify(r.stderr)}
+        if not seen and "SHUTDOWN-DONE" not in r.stdout:
+            seen["NoUseOfFreedOrNull"] = "driver did not finish (rc %d): %s" % (r.returncode, r.stderr[-120:])
+        return name, case, seen, w1 + w2
+    finally:
+        shutil.rmtree(d, ignore_errors=True)
+
+
+TYPE_CLAUSE = {"NoAccessUnderFreed": "NoUseOfFreedOrNull", "FreeOnce": "FreedOnce", "NoMemberLeak": "NoLeakAtShutdown",
+               "CounterNotLive": "NoUseOfFreedOrNull", "CounterFreedWhileShared": "FreedOnce", "EndState": "NoLeakAtShutdown"}
+
+
+def type_stage(chk):
+    """The storage routines emitted for structured user types, run on TypeRoutines.tla; violations are confirmed on the
+    sanitizer-instrumented binary of a real method over that type."""
+    names = sorted(type_catalogue())
+    with multiprocessing.Pool(min(NCPU, len(names))) as pool_:
+        res = pool_.map(type_job, names, chunksize=1)
+    warn = [w for r in res for w in r[3]]
+    if warn:
+        raise tlc.MachineryError("type-routine extractor met text it does not understand: %s" % warn[:3])
+    out = tlc.judge_batch("TypeRoutines", [r[1] for r in res], chunk=20, jobs=1, tags=("BAD", "RAN"), chk=chk)
+    ran = {}
+    for t in out["RAN"]:
+        ran.setdefault(t[1], set()).add((t[2], t[3]))
+    bad = {}
+    for t in out["BAD"]:
+        bad.setdefault(t[1], set()).add(t[2])
+        ran.setdefault(t[1], set()).add((t[3], t[4]))
+    confirmed = 0
+    for k, (name, case, seen, _w) in enumerate(res):
+        if len(ran.get(k, ())) != 6:
+            raise tlc.MachineryError("TypeRoutines: type %s: %d of 6 routine x scenario runs judged" % (name, len(ran.get(k, ()))))
+        if "compile-fail" in seen:
+            raise tlc.MachineryError("module for user type %s does not compile: %s" % (name, seen["compile-fail"]))
+        model = {TYPE_CLAUSE.get(c, c) for c in bad.get(k, ())}
+        if model:
+            hit = model & set(seen) or (set(seen) if seen else set())
+            if hit:
+                confirmed += 1
+                for clause in sorted(bad[k]):
+                    chk.violation("C12:type-routines:%s:%s" % (clause, name),
+                                  "the storage routines emitted for user type %s violate %s on the object model, and a real method "
+                                  "over that type shows %s under the sanitizer" % (name, clause, seen), {"type": name})
+        elif set(seen) - {"other-sanitizer-report"}:
+            raise tlc.MachineryError("sanitizer reports %s for user type %s but neither model found a violation" % (seen, name))
+    return {"user_types": names, "type_routine_runs_judged": sum(len(v) for v in ran.values()),
+            "types_with_model_violation": len(bad), "types_confirmed_on_binary": confirmed,
+            "paths": {r[0]: ["%".join(q) for q in r[1]["paths"]] for r in res}}
+
+
 def structural(method):
     calls = method["phases"][0]["calls"]
     depth = 0
@@ -329,6 +483,8 @@ def run(chk):
         raise tlc.MachineryError("marker trace of a real run is not a behaviour of the extracted skeleton (extractor or heap "
                                  "model misrepresents the generated code): %d runs, log %s" % (tcs_clean[k]["nruns"], tcs_clean[k]["log"][:12]))
     chk.stage("marker_traces")
+    types = type_stage(chk)
+    chk.stage("type_routines")
     confirmed = unconfirmed = 0
     nruns = 0
     for k, (seen, n) in zip(todo + spot, dyn):
@@ -365,6 +521,7 @@ def run(chk):
         "programs_with_model_violation": len(model), "confirmed_on_binary": confirmed,
         "model_violations_not_reproduced": unconfirmed, "clean_programs_spot_checked_under_sanitizer": len(spot),
         "sanitizer_runs": nruns,
+        "type_routines": types,
         "marker_traces_validated": len(tcs_clean), "marker_events": sum(len(c["log"]) for c in tcs_clean),
         "traces_validated_against_impl": nruns + len(tcs_clean),
         "samples": sample([{"program": progs.show_prog(c["method"]["phases"][0]["calls"]),
@@ -377,6 +534,20 @@ def run(chk):
 
 
 def replay(chk, rep):
+    if rep["case"].get("type"):
+        name, case, seen, warn = type_job(rep["case"]["type"])
+        for rname in ("alloc", "deinit"):
+            print(rname)
+            for k, i in enumerate(case[rname], 1):
+                print("  %2d %s" % (k, i))
+        res = tlc.run_tlc("TypeRoutines", cfg="TypeRoutinesStrict", env={"CASES": tlc.write_cases([case])}, workers=1)
+        chk.add_tlc(res)
+        print("TLC: %s; sanitizer: %s" % ("%s violated" % res.violated if res.violated else "no violation", seen or "clean"))
+        if res.violated and seen:
+            chk.violation(rep["signature"], "replayed: storage routines of user type %s violate %s, confirmed on the binary"
+                          % (name, res.violated), rep["case"])
+        chk.coverage.update({"evaluations": 1, "distinct_nontrivial": 2, "samples": [name]})
+        return
     m = rep["case"]["method"]
     case = prepare(m)
     tl = {k: case[k] for k in ("subs", "allvec", "allrc", "locals", "flags", "phaselits", "assoclits")}
